@@ -6,6 +6,7 @@ import procoracle as po
 FAMILIES = ['process']
 BRIDGES = ['br_proc_', 'br_nonideal_']
 PROPS_V = 'Props/C11.v'
+EXTRA_TARGETS = ['Model/NumCheck.vo']
 BUDGET = {'quick': 100, 'thorough': 3000}
 ORACLE_RULE = ('random runs of the 4 process kinds x modes x mixtures, each with a size-scaled twin (factor 1e-3..1e3 on area and feed amount) and, without '
                'a programme, an area/time twin (area*q, step/q); non-trivial = at least 2 steps')
@@ -59,6 +60,14 @@ def oracle(rng, tier):
         d = po.describe(cfg)
         d['scale'] = s
         yield {'kind': '%s:%s' % (cfg['kind'], cfg['mode']), 'case': d, 'ok': ok, 'detail': detail, 'nontrivial': cfg['n'] >= 2}
+
+
+def correspondence(tier, seed):
+    import corr_numeric
+    budget = {'process': 24}
+    if tier == 'thorough':
+        budget = {k: v * 12 for k, v in budget.items()}
+    return corr_numeric.run(seed, budget, nmax=30 if tier == 'quick' else 200, tag='C11')
 
 
 def replay(rep):
